@@ -778,11 +778,20 @@ func (s *vSim) record(res map[string]any) {
 }
 
 func (s *vSim) cleanup() {
-	s.releaseAll()
+	// Orderly teardown: first the clients still waiting go away and their exchanges unwind completely (target-failed
+	// "client", end, respond 499); only then are the goroutines still parked at yield points released.  Releasing both at
+	// once made a released Drain call snapshot requests whose client had already gone (context done, handler not yet
+	// unwound): the drain's wait loop rightly skips them, but the trace then shows requests "in flight" at the
+	// cancel-rest that no drain cut off - an artefact of the teardown, not a behaviour of the scenario.
 	s.mu.Lock()
+	s.events = append(s.events, vEvent{Seq: len(s.events), T: s.now(), G: "env", Kind: "teardown", Args: []any{}})
 	for _, c := range s.hung {
 		c()
 	}
+	s.mu.Unlock()
+	synctest.Wait()
+	s.releaseAll()
+	s.mu.Lock()
 	ts := append([]*Target{}, s.targets...)
 	s.mu.Unlock()
 	s.wg.Wait()
